@@ -4,6 +4,10 @@
 patch="$1"; shift
 W=/tmp/mutrepo_$$
 git -C /repo worktree add -q --detach "$W" HEAD || exit 2
+# add-only verification exports (build tag verif) that /repo has but has not committed yet
+for f in $(git -C /repo ls-files --others --exclude-standard | grep 'verif_[^/]*\.go$'); do
+  mkdir -p "$W/$(dirname "$f")"; cp "/repo/$f" "$W/$f"
+done
 if ! git -C "$W" apply "$patch"; then echo "PATCH DOES NOT APPLY"; git -C /repo worktree remove --force "$W"; exit 2; fi
 cd "$(dirname "$0")/.."
 for p in "$@"; do
